@@ -219,7 +219,10 @@ def eval_core(ctx, st, case, r, m, oracle=True, ignore_guard=False):
             if op[0] == "analog_read" and oracle and ir[0] == "ok" and not (isinstance(ir[1], int) and 0 <= ir[1] <= 255):
                 ctx.fail("analog_read returned a value outside 0..255", {"case": case, "call_index": i}, "0..255", ir, key="core-clamp")
         if m is not None and not res_matches(m[1][i], ir):
-            ctx.disagree(f"Core call {i} {op}: model vs implementation", case, m[1][i], ir)
+            # outside the guard the model reproduces the listed defect; an implementation that
+            # returns what the property demands there (a repaired pin_mode) is not a disagreement
+            if not (exp is not None and not exp[1] and ir[0] == "ok" and isinstance(ir[1], int) and ir[1] == exp[0]):
+                ctx.disagree(f"Core call {i} {op}: model vs implementation", case, m[1][i], ir)
         if not (op[0] == "analog_write" and ir[0] == "raise"):
             ref.apply(op)
     if oracle:
@@ -235,7 +238,13 @@ def eval_core(ctx, st, case, r, m, oracle=True, ignore_guard=False):
               "analog": {dec_pin(p): v for p, v in m[2][2]}}
         is_ = {name: {k: v for k, v in r["state"][name]} for name in ("modes", "digital", "analog")}
         if ms != is_:
-            ctx.disagree("Core dicts after the history: model vs implementation", case, ms, is_)
+            # the stored pull-up level of a never-written pin is the mechanism of the listed defect:
+            # an implementation that keeps no such entry (and answers from the mode) is equivalent
+            for k in ref.stale:
+                if k not in ref.d and k not in is_["digital"]:
+                    ms["digital"].pop(k, None)
+            if ms != is_:
+                ctx.disagree("Core dicts after the history: model vs implementation", case, ms, is_)
 
 
 def eval_map(ctx, st, case, r, m, oracle=True):
@@ -557,7 +566,7 @@ def gen_button(rng, thorough):
 
 
 def gen_pot(rng, thorough):
-    pins = ["A0", " A0 ", "A", "a0", "A01", "A-1", "", " ", "A0x", "\tA5\n", "A 0", "A15", "B0", "0A", "AA0", None, 5]
+    pins = ["A0", " A0 ", "A", "a0", "A01", "A-1", "", " ", "A0x", "\tA5\n", "A 0", "A15", "B0", "0A", "AA0", "\x1cA1\x1f", "\x0bA2\x0c\r", "A1\x00", "_A1", None, 5]
     vals = [-1, 0, 1, 511, 1022, 1023, 1024, 2000, -1000, True, False, 0.0, -0.5, 0.5, 1023.0, 1023.9, 1024.0, -1.0, None]
     cases = [["pot", p, prov, vals] for p in pins for prov in (True, False)]
     for _ in range(300 if thorough else 40):
@@ -567,7 +576,7 @@ def gen_pot(rng, thorough):
 
 
 def gen_ultra(rng, thorough):
-    names = [None, "HC-SR04", "hc-sr04", " hc_sr04 ", "HC_SR04", "Hc-Sr04\n", "x", "", "HCSR04", "HC--SR04", "HC-SR05", "hc sr04"]
+    names = [None, "HC-SR04", "hc-sr04", " hc_sr04 ", "HC_SR04", "Hc-Sr04\n", "x", "", "HCSR04", "HC--SR04", "HC-SR05", "hc sr04", "\x1chc-sr04\x0b", "hc-sr_04", "_hc-sr04"]
     pinv = [0, 1, 7, -1, True, 1.0, None]
     vals = [-1, 0, 5, 2.5, -0.5, True, False, None, -0.001, 400, 0.001, 0.0, 1e6, -1e6]
     cases = []
